@@ -768,8 +768,10 @@ func c11Run(rep *c11Rep, ep int, format string, args []interface{}, argText stri
 	d := c11DelMarkers(out)
 	if !strings.HasPrefix(d, pre+"A|") {
 		rep.fail(c11CallText(ep, format, argText), out, "text written before the directive is lost or altered")
+		return out, false
 	} else if !strings.HasSuffix(d, post) || !(strings.HasSuffix(d, tail+post) || strings.Contains(d, tail+"%!(EXTRA ")) {
 		rep.fail(c11CallText(ep, format, argText), out, "text written after the directive is lost or altered")
+		return out, false
 	}
 	return out, true
 }
